@@ -156,6 +156,11 @@ def condLeaf (t : String) : Option Cond :=
     let (e, r) ← gexpr (rest.length + 1) rest
     if !r.isEmpty then none
     else if side == "L" then some (Cond.cmpR o e y true) else if side == "R" then some (Cond.cmpR o e y false) else none
+  | ["wcmp", o, sv, w] => do
+    -- wcmp:<eq|ne>:<16-bit variable>:<16-bit operand>
+    let ne ← (if o == "ne" then some true else if o == "eq" then some false else none)
+    let w ← wa w
+    some (Cond.wcmp ne sv w)
   | "te" :: rest => do
     let (e, r) ← gexpr (rest.length + 1) rest
     if r.isEmpty then some (Cond.truthE e) else none
